@@ -190,6 +190,27 @@ struct Full {
 
 /// compile with: module references allocated in `alloc_order`, a HashMap whose iteration order is
 /// `iter_order` (obtained by rebuilding maps until the order matches), on a pool of `workers`
+/// Runs `f` over 0..n on plain OS threads. (Not rayon: every job builds its own rayon pool and waits
+/// for it, and a waiting rayon worker takes further jobs on the same stack - with many jobs per
+/// program that recursion overflowed the stack.)
+fn map_on_threads<R: Send>(n: usize, f: impl Fn(usize) -> R + Sync) -> Vec<R> {
+  let next = AtomicU64::new(0);
+  let out: Mutex<Vec<Option<R>>> = Mutex::new((0..n).map(|_| None).collect());
+  std::thread::scope(|s| {
+    for _ in 0..12usize.min(n.max(1)) {
+      s.spawn(|| loop {
+        let i = next.fetch_add(1, Ordering::Relaxed) as usize;
+        if i >= n {
+          break;
+        }
+        let r = f(i);
+        out.lock().unwrap()[i] = Some(r);
+      });
+    }
+  });
+  out.into_inner().unwrap().into_iter().map(|r| r.unwrap()).collect()
+}
+
 fn compile_once(p: &Program, alloc_order: &[usize], iter_order: Option<&[usize]>, workers: usize) -> Result<Full, String> {
   let pool = rayon::ThreadPoolBuilder::new().num_threads(workers).build().map_err(|e| e.to_string())?;
   let mut heap = Heap::new();
@@ -384,12 +405,10 @@ fn main() {
       jobs.push((perms[perms.len() - 1].clone(), Some(perms[perms.len() / 2].clone()), *w));
     }
     // thread pools are created per job; run jobs sequentially in chunks to keep thread counts sane
-    let results: Vec<(usize, Result<Full, String>)> = jobs
-      .par_iter()
-      .enumerate()
-      .with_max_len(1)
-      .map(|(i, (a, it, w))| (i, compile_once(p, a, it.as_deref(), *w)))
-      .collect();
+    let results: Vec<(usize, Result<Full, String>)> = map_on_threads(jobs.len(), |i| {
+      let (a, it, w) = &jobs[i];
+      (i, compile_once(p, a, it.as_deref(), *w))
+    });
     let mut distinct_binaries: BTreeMap<(u64, u64), exec::Emitted> = BTreeMap::new();
     if let Some(e) = &reference.emitted {
       distinct_binaries.insert((reference.r.wasm_hash, reference.r.ts_hash), e.clone());
@@ -464,8 +483,10 @@ fn main() {
         }
       }
     }
-    let results: Vec<Result<Full, String>> =
-      jobs.par_iter().map(|(pi, a, it)| compile_once(&genp[*pi], a, Some(it.as_slice()), 1)).collect();
+    let results: Vec<Result<Full, String>> = map_on_threads(jobs.len(), |i| {
+      let (pi, a, it) = &jobs[i];
+      compile_once(&genp[*pi], a, Some(it.as_slice()), 1)
+    });
     // distinct artefacts per program
     let mut per_prog: Vec<BTreeMap<(u64, u64), exec::Emitted>> = vec![BTreeMap::new(); genp.len()];
     for ((pi, a, it), r) in jobs.iter().zip(results) {
